@@ -22,7 +22,7 @@ def gen_full_rank(r, N, D):
 def run(chk):
     chk.prove()
     r = gen.rng(chk.seed, "C14")
-    n_cases = 50 if chk.tier == "quick" else 400
+    n_cases = 50 if chk.tier == "quick" else 1500
     wterms, cterms = [], []
     for i in range(n_cases):
         D = r.choice([1, 2, 3, 4])
